@@ -1,7 +1,7 @@
 """C08 — the table manager's log records exactly what was played, independently of thread timing."""
 TITLE = "The table manager's log records exactly what was played"
-LEAN_TARGETS = ['BridgeVerif.Props.C08', 'BridgeVerif.Translated.ThreadsMainA', 'BridgeVerif.Translated.ThreadsMainB', 'BridgeVerif.Translated.ThreadsMainC', 'BridgeVerif.Translated.ThreadsMainD', 'BridgeVerif.Translated.ThreadsMainE', 'BridgeVerif.Translated.ThreadsMainF']
-AUDIT_PROPS = ['C08', 'Translated.ThreadsMainA', 'Translated.ThreadsMainB', 'Translated.ThreadsMainC', 'Translated.ThreadsMainD', 'Translated.ThreadsMainE', 'Translated.MsgParsersA', 'Translated.MsgParsersC', 'Translated.MsgParsersD', 'Translated.MsgParsersE', 'Translated.MsgParsersF', 'Translated.ThreadsMainF']
+LEAN_TARGETS = ['BridgeVerif.Props.C08', 'BridgeVerif.Translated.ThreadsMainA', 'BridgeVerif.Translated.ThreadsMainB', 'BridgeVerif.Translated.ThreadsMainC', 'BridgeVerif.Translated.ThreadsMainD', 'BridgeVerif.Translated.ThreadsMainE', 'BridgeVerif.Translated.ThreadsMainF', 'BridgeVerif.Translated.ThreadsMainG']
+AUDIT_PROPS = ['C08', 'Translated.ThreadsMainA', 'Translated.ThreadsMainB', 'Translated.ThreadsMainC', 'Translated.ThreadsMainD', 'Translated.ThreadsMainE', 'Translated.MsgParsersA', 'Translated.MsgParsersC', 'Translated.MsgParsersD', 'Translated.MsgParsersE', 'Translated.MsgParsersF', 'Translated.ThreadsMainF', 'Translated.ThreadsMainG']
 REQUIRED = ['Translated.ThreadsMainE.translated_main_thread_is_session_program_ascii', 'Translated.MsgParsersA.parse_card_translated', 'Translated.MsgParsersD.parse_bid_translated_ascii',
             'Translated.ThreadsMainD.translated_main_thread_is_session_program', 'Translated.ThreadsMainD.translated_main_thread_writes_the_session_log', 'Translated.ThreadsMainD.session_boards_parse', 'Translated.ThreadsMainD.translated_main_thread_is_session_program_protocol', 
             'Translated.ThreadsMainC.main_deal_translated_dict', 'Translated.ThreadsMainC.main_board_translated', 'Translated.ThreadsMainC.main_boards_translated', 'Translated.ThreadsMainC.main_run_translated', 
